@@ -21,7 +21,7 @@
 From Coq Require Import List ZArith Bool Arith Reals Lra.
 Import ListNotations.
 From FV.C10 Require Import Model Groups ProofsTables ProofsGeom.
-From FV.C12 Require Import Model Reps ProofsGeom Proofs.
+From FV.C12 Require Import Model Reps ProofsGeom Proofs ProofsMatrix.
 
 (* every cell is incident to exactly its own faces *)
 Theorem C12_inc_own_faces :
@@ -123,6 +123,76 @@ Theorem C12_translation_invariant : forall (t : RV3) (cell face : list RV3),
   /\ varea2 ROps (map (vadd ROps t) face) = varea2 ROps face.
 Proof. intros. split; [apply outward2_translate | apply varea2_translate]. Qed.
 
+(* ---- the property stated on the MATRIX itself ---------------------------------
+   `incidence pos m` is the list of sorted COO triples (row, column, value) that the
+   correspondence check compares exactly with the scipy matrix returned by
+   calculate_normal_incidence_matrix; coordinates are integers (ZOps) and every
+   hypothesis is a boolean that the check evaluates on every generated mesh
+   (wf_mesh, cells_meet_in_faces, oriented_conforming, forallb cell_outwardb). *)
+
+(* the integer geometry is the real geometry: sign test and convex-cell predicate *)
+Theorem C12_Z_model_is_R_model : forall pos e f,
+  IZR (sgn pos e f) = sgnR (odotR (posR pos) e f)
+  /\ (cell_outwardb pos e = true -> cell_outward (posR pos) e).
+Proof. intros. split; [apply IZR_sgn | apply cell_outwardb_outward]. Qed.
+
+(* rows: one entry per face of the cell, in the column of the facet on that face,
+   and the signed (doubled) area vectors of the row sum to zero *)
+Theorem C12_matrix_row : forall pos m,
+  wf_mesh m = true -> cells_meet_in_faces m = true -> oriented_conforming m = true ->
+  forallb (cell_outwardb pos) (elems m) = true ->
+  forall i e, nth_error (cells m) i = Some e ->
+    let row := row_of i (incidence pos m) in
+    length row = length (elem_faces e)
+    /\ (forall t, In t row -> exists f,
+          nth_error (facets m) (snd (fst t)) = Some f
+          /\ existsb (same_face f) (elem_faces e) = true
+          /\ snd t = sgn pos e f)
+    /\ vsum ZOps (map (fun t => vscale ZOps (snd t)
+                                  (facet_area2 pos (nth (snd (fst t)) (facets m) []))) row)
+       = (0, 0, 0)%Z.
+Proof. exact matrix_row. Qed.
+
+(* rows, volume: (1/3) sum over the entries of row i of sign * area * (normal . facet
+   centre) is the volume of cell i; stated x 72 so that no division occurs
+   (2A = facet_area2, n c = vsum, 12/n in {4, 3}, 24 V = elem_vol24) *)
+Theorem C12_matrix_row_volume : forall pos m,
+  wf_mesh m = true -> cells_meet_in_faces m = true -> oriented_conforming m = true ->
+  forallb (cell_outwardb pos) (elems m) = true ->
+  forall i e, nth_error (cells m) i = Some e ->
+    sumT ZOps (map (fun t => let f := nth (snd (fst t)) (facets m) [] in
+                             (snd t * dot ZOps (facet_area2 pos f) (vsum ZOps (map pos f))
+                              * (12 / Z.of_nat (length f)))%Z)
+                   (row_of i (incidence pos m)))
+    = (3 * elem_vol24 ZOps pos e)%Z.
+Proof. exact matrix_row_volume. Qed.
+
+(* columns: a boundary facet has the single entry +1, an interior facet exactly
+   the two entries +1 and -1 *)
+Theorem C12_matrix_column : forall pos m,
+  wf_mesh m = true -> cells_meet_in_faces m = true -> oriented_conforming m = true ->
+  forallb (cell_outwardb pos) (elems m) = true ->
+  forall j f, nth_error (facets m) j = Some f ->
+    let col := map snd (col_of j (incidence pos m)) in
+    col = [1%Z] \/ Permutation.Permutation col [1%Z; (-1)%Z].
+Proof. exact matrix_column. Qed.
+
+(* in the order of `elems m` (= row order for a single-type mesh) the first-listed
+   cell owns the stored orientation: the column reads [1] or [1; -1] *)
+Theorem C12_column_first_owner_positive : forall pos m,
+  wf_mesh m = true -> cells_meet_in_faces m = true -> oriented_conforming m = true ->
+  forallb (cell_outwardb pos) (elems m) = true ->
+  forall f, In f (reps m) ->
+    let vals := map (fun e => sgn pos e f) (filter (fun e => rel e f) (elems m)) in
+    vals = [1%Z] \/ vals = [1%Z; (-1)%Z].
+Proof. exact column_elems_order. Qed.
+
+(* sign = orientation over Z (boolean convex-cell hypothesis) *)
+Theorem C12_sign_is_orientation_Z : forall pos e, cell_outwardb pos e = true ->
+  forall h, In h (elem_faces e) ->
+    sgn pos e h = 1%Z /\ (forall g, is_reversal h g = true -> sgn pos e g = (-1)%Z).
+Proof. exact sgn_orientation_Z. Qed.
+
 (* non-vacuity: two positive tetrahedra glued along a face, sparse unsorted ids *)
 Definition ex_mesh : mesh :=
   {| m_nodes := [40; 7; 19; 3; 88]%Z;
@@ -142,6 +212,30 @@ Proof.
     lra.
 Qed.
 
+(* non-vacuity of the matrix theorems: the same mesh with integer coordinates; all four boolean
+   hypotheses hold, the matrix is 2 x 7 with 8 entries, column of the shared facet = [1; -1] *)
+Definition ex_posZ (i : Z) : Z * Z * Z :=
+  if Z.eqb i 7 then (0, 0, 0)%Z else if Z.eqb i 19 then (1, 0, 0)%Z
+  else if Z.eqb i 3 then (0, 1, 0)%Z else if Z.eqb i 40 then (0, 0, 1)%Z else (0, 0, -1)%Z.
+Example C12_matrix_hypotheses_satisfiable :
+  wf_mesh ex_mesh = true /\ oriented_conforming ex_mesh = true /\ cells_meet_in_faces ex_mesh = true
+  /\ forallb (cell_outwardb ex_posZ) (elems ex_mesh) = true
+  /\ length (incidence ex_posZ ex_mesh) = 8
+  /\ incidence ex_posZ ex_mesh
+     = [(0, 0, 1%Z); (0, 1, 1%Z); (0, 3, 1%Z); (0, 5, 1%Z); (1, 0, (-1)%Z); (1, 2, 1%Z); (1, 4, 1%Z); (1, 6, 1%Z)]%nat
+  /\ exists j, map snd (col_of j (incidence ex_posZ ex_mesh)) = [1%Z; (-1)%Z].
+Proof.
+  repeat (split; [vm_compute; reflexivity |]).
+  exists 0%nat.
+  vm_compute. reflexivity.
+Qed.
+
 Print Assumptions C12_div_area.
+Print Assumptions C12_matrix_row.
+Print Assumptions C12_matrix_row_volume.
+Print Assumptions C12_matrix_column.
+Print Assumptions C12_column_first_owner_positive.
+Print Assumptions C12_sign_is_orientation_Z.
+Print Assumptions C12_Z_model_is_R_model.
 Print Assumptions C12_div_volume.
 Print Assumptions C12_facet_cells.
